@@ -364,7 +364,10 @@ def needles_for(snaps):
     for s in snaps:
         seed = s['seed']
         if seed and seed.strip():
-            out.append(('mnemonic', seed))
+            # a one-word mnemonic can coincide with structural text of the file ("change", "seed", "name" are BIP39 words and
+            # JSON keys of every wallet file; thorough-tier false alarm, DESIGN 0): it is searched for as a whole token of the
+            # file's string VALUES outside the public name/ledger fields, never as a raw substring
+            out.append(('mnemonic-single-word' if len(seed.split()) == 1 else 'mnemonic', seed))
             spans = [m.span() for m in re.finditer(r'\S+', seed)]
             for i in range(len(spans) - 3):
                 out.append(('mnemonic-4-words', seed[spans[i][0]:spans[i + 3][1]]))
@@ -398,9 +401,31 @@ def find_needles(raw, needles):
         pass
     found = {}
     for kind, n in needles:
-        if kind not in found and any(n in h for h in hay):
+        if kind in found:
+            continue
+        if kind == 'mnemonic-single-word':
+            vals = []
+            try:
+                _json_values(json.loads(raw), vals)
+            except ValueError:
+                continue
+            if any(n.strip() in v.split() for v in vals):
+                found[kind] = n
+        elif any(n in h for h in hay):
             found[kind] = n
     return found
+
+
+def _json_values(x, acc, key=None):
+    if isinstance(x, str):
+        if key not in ('name', 'ledger'):
+            acc.append(x)
+    elif isinstance(x, dict):
+        for k, v in x.items():
+            _json_values(v, acc, k)
+    elif isinstance(x, list):
+        for v in x:
+            _json_values(v, acc, key)
 
 
 def read_bytes(path):
